@@ -202,66 +202,66 @@ def run(repo, rep, tier):
     # ---- rule 3: header/banner separation ------------------------------------------------------------------------------------
     gb = repo.func('ssh_socket', 'SSH_Socket.get_banner')
     rep.saw(gb)
-    c = CFG(gb, exc_edges=False)
-    parses = c.stmts_matching(lambda st: isinstance(st, ast.Assign) and 'Banner.parse(line)' in unparse(st.value))
-    apps = c.stmts_matching(lambda st: isinstance(st, ast.Expr) and unparse(st.value) == 'self.__header.append(line)')
-    for n in walk_no_nested(gb):
-        if isinstance(n, ast.Call) and unparse(n.func) == 'Banner.parse' and n.args and unparse(n.args[0]) != 'line':
-            rep.check('separation', 'the line is handed to Banner.parse unmodified', False, n, 'get_banner hands %s to Banner.parse: characters removed here never reach the validity flag' % unparse(n.args[0]))
-            parses = c.stmts_matching(lambda st: isinstance(st, ast.Assign) and 'Banner.parse(' in unparse(st.value))
-    rep.floor('separation', 'banner parse site', len(parses), 1)
-    rep.floor('separation', 'header append site', len(apps), 1)
-    rep.check('separation', 'a line is appended to the header only after it was tried as a banner', c.always_before(apps, parses), apps[0].stmt, 'header append not preceded by Banner.parse')
-    succ = [n for n in walk_no_nested(gb) if isinstance(n, ast.If) and unparse(n.test) == 'self.__banner is not None' and any(k in ('for', 'while') for t, p, k in path_condition(n))]
-    def _banner_return(r):
-        v = r.value if isinstance(r, ast.Return) else None
-        return isinstance(v, ast.Tuple) and len(v.elts) == 3 and unparse(v.elts[0]) == 'self.__banner' and unparse(v.elts[1]) in ('self.__header', 'list(self.__header)', 'self.__header[:]', 'self.__header.copy()') \
-            and isinstance(v.elts[2], ast.Constant) and v.elts[2].value is None
-    ok = len(succ) == 1 and _banner_return(succ[0].body[-1])
-    rep.check('separation', 'the first line that parses is returned as the banner', ok, succ[0] if succ else gb, 'banner return changed')
-    if succ:
-        ret_nodes = c.nodes_of(succ[0].body[-1])
-        tbranch = c.branch(succ[0], True)
-        # header append is reachable from the parse only through the "not a banner" branch
-        p = c.find_path(tbranch, apps, avoid=[n for n in c.nodes if n.kind == 'test' and isinstance(n.stmt, ast.While) and unparse(n.stmt.test) == 'self.unread_len > 0'])
-        rep.check('separation', 'a line that parsed as the banner is never added to the header', p is None, apps[0].stmt, 'banner line can also be appended to the header', witness=describe_path(p) if p else None)
-        inner = apps[0].stmt
-        while inner is not None and not isinstance(inner, ast.While):
-            inner = inner._parent
-        pa = [(unparse(t), pp) for t, pp, k in path_condition(apps[0].stmt, stop=inner) if k in ('if', 'guard')]
-        from sa.logic import implied_atoms as _ia16
-        atoms16 = {(unparse(t), pp) for t, pp in _ia16([x for x in path_condition(apps[0].stmt, stop=inner) if x[2] in ('if', 'guard')])}
-        not_banner = bool(atoms16 & {('self.__banner is not None', False), ('self.__banner is None', True)})
-        not_empty = bool(atoms16 & {('len(line.strip()) == 0', False), ('len(line.strip()) > 0', True), ('line.strip()', True), ("line.strip() == ''", False), ("line.strip() != ''", True)})
-        rep.check('separation', 'header append is guarded by "did not parse" and "not empty"', not_banner and not_empty, apps[0].stmt, 'header append guards: %s' % pa)
-    # a line is handed to the banner parser only when it is complete: BytesIO.readline() also returns an unterminated tail, and a banner that reaches
-    # the tool in two TCP segments would be parsed as its first half.  The read_line() call must lie behind a guard that looks for the line terminator
-    # in the unread bytes (directly, or through a helper whose body does), with the end of the stream as the only way around it.
-    def _mentions_newline(e, depth=0):
-        for x in ast.walk(e):
-            if isinstance(x, ast.Constant) and x.value in (b'\n', '\n', b'\r\n', '\r\n'):
-                return True
-            if isinstance(x, ast.Call) and isinstance(x.func, ast.Attribute) and isinstance(x.func.value, ast.Name) and x.func.value.id == 'self' and depth < 2:
-                for cls_ in (repo.cls('ssh_socket', 'SSH_Socket'), repo.cls('readbuf', 'ReadBuf')):
-                    for m_ in cls_.body:
-                        if isinstance(m_, ast.FunctionDef) and m_.name == x.func.attr and m_.name not in ('read_line', 'get_banner') and _mentions_newline(m_, depth + 1):
-                            return True
-        return False
-    for rl_call in [n for n in walk_no_nested(gb) if isinstance(n, ast.Call) and unparse(n.func) == 'self.read_line']:
-        guards = [(t, pol) for t, pol, k in path_condition(rl_call) if k in ('if', 'guard', 'while') and _mentions_newline(t)]      # a terminator test in the condition of the enclosing loop guards the call just as well
-        rep.check('separation', 'only complete lines are handed to the banner parser', bool(guards), rl_call,
-                  'get_banner() parses whatever read_line() returns after each recv(): a banner (or header) line that arrives in two TCP segments is parsed as its first half (e.g. "SSH-2.0-Open" | "SSH_8.9") and the remainder is taken for packet data',
-                  stmt='read_line guarded by a line-terminator test')
+    # get_banner by interpretation (props/_getbanner.py): scripted peers (TCP segments, then close or timeout) -> the returned (banner, header, error), the
+    # lines that were tried as a banner and how much of the buffer was consumed, compared with the documented behaviour: complete lines are tried in
+    # order and unmodified, blank lines skipped, the first line that parses is returned at once and is not header text, the non-empty lines before it are
+    # the header in order, an unterminated tail is tried only once the peer has stopped, and nothing behind the banner line is consumed.
+    from props import _getbanner as _gbm
+    nscr = 0
+    alias_seen = False
+    for sdesc, segs in _gbm.SCRIPTS:
+        for end in _gbm.ENDS:
+            r_ = _gbm.run(repo, segs, end)
+            want_ret, want_tried, want_pos = _gbm.expected(segs, end)
+            rep.evals()
+            nscr += 1
+            problem = None
+            if r_['crash']:
+                problem = 'get_banner raises (%s)' % r_['crash']
+            else:
+                got_b, got_h, got_e = r_['ret']
+                alias_seen = alias_seen or (isinstance(got_h, list) and got_h is r_.get('stored_header'))
+                if r_['parsed'] != want_tried:
+                    cut = [l for l in r_['parsed'] if l not in want_tried]
+                    problem = 'the lines tried as a banner are %r, the peer sent the lines %r%s' % (r_['parsed'], want_tried, ' -- a line is parsed before it is complete (a banner that arrives in two TCP segments is read as its first half)' if any(w.startswith(c_) and w != c_ for c_ in cut for w in want_tried) else '')
+                elif got_b != want_ret[0]:
+                    problem = 'the banner returned is %r, expected %r' % (got_b, want_ret[0])
+                elif list(got_h) != want_ret[1] if isinstance(got_h, list) else True:
+                    problem = 'the header returned is %r, expected %r' % (got_h, want_ret[1])
+                elif got_e != want_ret[2]:
+                    problem = 'the error returned is %r, expected %r' % (got_e, want_ret[2])
+                elif r_['consumed'] != want_pos:
+                    problem = '%d byte(s) of the buffer are consumed, the banner line ends after %d (what follows is key exchange data)' % (r_['consumed'], want_pos)
+                elif want_ret[0] is not None and r_.get('stored_banner') != want_ret[0]:
+                    problem = 'the banner is returned but not kept: a second get_banner() call would read on'
+            rep.check('separation', 'get_banner on a scripted peer: %s, then %s' % (sdesc, 'close' if end[1] is None else 'timeout'), problem is None, gb,
+                      'get_banner, peer sends %s and then %s: %s' % (sdesc, 'closes' if end[1] is None else 'stalls', problem), stmt='get_banner model: %s' % sdesc)
+    rep.floor('separation', 'scripted peers interpreted', nscr, 16)
     # get_banner hands out the header list object itself, and audit() keeps it until the report is written while the probes close and re-open the
     # socket: the list may only grow by the append above; every other in-place operation on it anywhere in the class (clear, pop, remove, del,
     # slice store, sort ...) would change the header text of a report whose banner was already read.  Resetting must rebind the attribute.
     scls = repo.cls('ssh_socket', 'SSH_Socket')
-    returns_alias = any(isinstance(r, ast.Return) and isinstance(r.value, ast.Tuple) and any(unparse(e) == 'self.__header' for e in r.value.elts) for r in walk_no_nested(gb))
+    returns_alias = alias_seen       # (model: the list get_banner returns is the object it keeps)
     hdr_edits = []
+    # get_banner's own helpers: methods of the class that only get_banner (or another of its helpers) calls -- the banner loop may live in one
+    methods = {x.name: x for x in scls.body if isinstance(x, ast.FunctionDef)}
+    calls_of = {nm: {c_.func.attr for c_ in ast.walk(fn_) if isinstance(c_, ast.Call) and isinstance(c_.func, ast.Attribute) and isinstance(c_.func.value, ast.Name) and c_.func.value.id == 'self' and c_.func.attr in methods} for nm, fn_ in methods.items()}
+    gbfam = [gb]
+    grew_ = True
+    while grew_:
+        grew_ = False
+        fam_names = {f_.name for f_ in gbfam}
+        for nm, fn_ in methods.items():
+            if fn_ in gbfam or not nm.startswith('_'):
+                continue
+            callers_ = {c_ for c_, cs in calls_of.items() if nm in cs}
+            if callers_ and callers_ <= fam_names:
+                gbfam.append(fn_)
+                grew_ = True
     for fn in [x for x in scls.body if isinstance(x, ast.FunctionDef)]:
         for n in ast.walk(fn):
             if isinstance(n, ast.Call) and isinstance(n.func, ast.Attribute) and unparse(n.func.value) == 'self.__header' and n.func.attr in ('clear', 'pop', 'remove', 'insert', 'extend', 'sort', 'reverse', 'append'):
-                if not (n.func.attr == 'append' and fn is gb):
+                if not (n.func.attr == 'append' and fn in gbfam):
                     hdr_edits.append((fn, n))
             if isinstance(n, ast.Delete) and any('self.__header' in unparse(t) for t in n.targets):
                 hdr_edits.append((fn, n))
@@ -275,8 +275,6 @@ def run(repo, rep, tier):
                       'SSH_Socket.%s edits the header list in place (%s), but get_banner() returned that very list to audit(): the header lines read before the banner vanish from (or change in) the report once the probes %s' % (fn.name, unparse(n)[:50], 'close the socket' if fn.name == 'close' else 'run'),
                       stmt='in-place edit of the returned header list in %s' % fn.name)
     rep.ob('separation', 'header list: only appended to in get_banner, reset by rebinding (%d other in-place edits)' % len(hdr_edits), not (returns_alias and hdr_edits)) if not (returns_alias and hdr_edits) else None
-    ln = [n for n in walk_no_nested(gb) if isinstance(n, ast.Assign) and unparse(n.targets[0]) == 'line']
-    rep.check('separation', 'lines are read with read_line()', len(ln) == 1 and unparse(ln[0].value) == 'self.read_line()', ln[0] if ln else gb, 'line source changed')
     rl = repo.func('readbuf', 'ReadBuf.read_line')
     # typed walk of read_line's method chain: bytes from the buffer's readline(); byte-level (r)strip() removes the line ending only
     # (ASCII blanks); after decode() the value is text and nothing may remove characters any more -- str.strip() also drops
